@@ -4,7 +4,7 @@ from hypothesis import strategies as st
 from vlib import jasm_io
 from vlib.gen_listing import att_view, listings
 from vlib.objsrc import ALL_LAYOUTS, LAYOUT_ASSUMPTION, LAYOUT_RULE, layout_tag, listing_for, source_tag, sources
-from vlib.refnorm import decode_stream, instruction_lines, split_operands
+from vlib.refnorm import decode_stream, instruction_lines, line_operand_count
 from vlib.render import render
 from vlib.runner import Eval
 
@@ -24,8 +24,6 @@ RULE = (
 RULE += " Real objdump output is taken " + LAYOUT_RULE + "."
 ASSUMPTIONS = ["the parser's own Instruction list is the 'instruction list' the statement talks about", "objdump 2.40 as input source", LAYOUT_ASSUMPTION]
 FLOORS = {"nontrivial-mix": 0.3}
-PREFIX_WORDS = {"lock", "rep", "repz", "repnz", "repe", "repne", "bnd", "notrack", "cs", "ds", "es", "fs", "gs", "ss", "addr16", "addr32", "data16", "data32",
-                "xacquire", "xrelease", "rex"}
 
 
 def budget(tier):
@@ -110,13 +108,9 @@ def _evaluate(case):
         lines = instruction_lines(text)
         if len(lines) == len(got):
             for (addr, t), (a, m, ops) in zip(lines, got):
-                t = t.replace("data16 ", "")
-                toks = t.split(None, 1)
-                if not toks or toks[0] in PREFIX_WORDS or toks[0].startswith(("rex", "{")):
+                n_line = line_operand_count(t)
+                if n_line is None:
                     continue
-                optext = (toks[1] if len(toks) > 1 else "").split("#")[0].strip()
-                optext = optext.split(" ")[0] if optext else ""
-                n_line = len(split_operands(optext)) if optext else 0
                 n_stream = 0 if ops == [""] else len(ops)
                 if n_line != n_stream:
                     ev.dev("operand-count", line=t, operands_in_line=n_line, fields_in_stream=list(ops), address=addr)
